@@ -296,6 +296,8 @@ def run(chk):
     _timernow_rule(chk, prog)
     _cbgrow_rule(chk, prog)
     _rootflag_rule(chk, prog)
+    _loopraise_rule(chk, prog)
+    _timerarm_rule(chk, prog)
     from rules.c14 import _castrange_rule
     _castrange_rule(chk, prog.tus["ev.c"], rule="C07-TIMECAST",
                     desc="a duration is converted to the timer queue's integer timestamp only after NaN and out-of-range values were excluded "
@@ -412,3 +414,103 @@ def _rootflag_rule(chk, prog):
                       "was scheduled and has not parked yet can be resumed by hand, runs nested in the caller, and is continued again "
                       "by the loop from the middle of its wait" % (sorted(owned), sorted(tested) or "nothing"))
     chk.floor(rule, 1)
+
+
+RAISERS = ("janet_panic", "janet_panicv", "janet_panicf", "janet_panics", "janet_signalv")
+
+
+def _loopraise_rule(chk, prog):
+    """Between two tasks the event loop runs on no fiber: there is nothing to deliver an error to, so a raise unwinds
+    out of janet_loop (the program ends with `top level signal` and status 0 while other tasks still wait) or, in a
+    worker thread, into the handler of janet_go_thread_subr - and a raise from inside that handler comes back to the
+    same handler for ever.  The loop therefore reports problems (stack trace, status) itself and calls nothing that
+    raises by its own decision; the channel operations it uses are the status-returning *_with_lock forms."""
+    rule = "C07-LOOPRAISE"
+    chk.rule(rule, "janet_loop1, and the failure handler of janet_go_thread_subr, call no function that itself raises (a body with a direct janet_panic* / janet_signalv call)")
+    byname = {}
+    for f in prog.all_funcs():
+        byname.setdefault(f.name, f)
+
+    def raises(name):
+        g = byname.get(name)
+        return g is not None and any(c.k == "call" and c.callee in RAISERS for c in g.nodes)
+    n = 0
+    lp = prog.need_func("janet_loop1", "ev.c")
+    chk.analysed(lp)
+    for c in lp.nodes:
+        if c.k == "call" and c.callee and c.callee in byname:
+            n += 1
+            chk.instance(rule)
+            if raises(c.callee) or c.callee in RAISERS:
+                chk.violation(rule, "ev.c", "janet_loop1", c.callee, c.loc,
+                              "janet_loop1 calls %s, which raises when it fails (e.g. a supervisor channel that was closed): no fiber is running "
+                              "at this point, so the error unwinds out of the event loop - the main thread stops with tasks still waiting, a "
+                              "worker thread re-enters its failure handler without end" % c.callee)
+            else:
+                chk.ok(rule, "janet_loop1: %s does not raise by itself" % c.callee)
+    sub = prog.need_func("janet_go_thread_subr", "ev.c")
+    chk.analysed(sub)
+    # the variable that receives janet_try's result, and the `if` that branches on it
+    tv = set(x.name for x in sub.nodes if x.k == "vardecl" and x.kids and any("janet_try" in y.macro_names() or (y.k == "call" and y.callee in ("janet_try_init", "setjmp", "_setjmp")) for y in x.kids[0].walk()))
+    tries = [x for x in sub.nodes if x.k == "if" and len(x.kids) > 2 and any(y.k == "ref" and y.name in tv for y in x.kids[0].walk())]
+    if not tries:
+        raise AnalysisBroken("janet_go_thread_subr: the branch on the result of janet_try was not recognised")
+    c0, t0 = flow.strip_not(tries[0].kids[0], True)
+    # `if (!signal) {body} else {handler}`  or  `if (signal) {handler} else {body}`
+    handler = tries[0].kids[2] if not t0 or (c0.k == "bin" and c0.op == "==") else tries[0].kids[1]
+    for c in handler.walk():
+        if c.k == "call" and c.callee and (c.callee in byname or c.callee in RAISERS):
+            n += 1
+            chk.instance(rule)
+            if raises(c.callee) or c.callee in RAISERS:
+                chk.violation(rule, "ev.c", "janet_go_thread_subr", c.callee, c.loc,
+                              "the failure handler of janet_go_thread_subr calls %s, which can raise: janet_restore has not run yet, so the "
+                              "raise lands in this handler again and the thread spins for ever" % c.callee)
+            else:
+                chk.ok(rule, "janet_go_thread_subr handler: %s does not raise by itself" % c.callee)
+    chk.floor(rule, 10, n)
+
+
+def _timerarm_rule(chk, prog):
+    """The epoll loop sleeps in epoll_wait(-1) and relies on the timerfd to wake it for the next deadline.  The
+    deadline is an absolute time computed from a user-supplied duration and can be zero or negative; an all-zero
+    itimerspec DISARMS the timer and a negative one is refused, and then nothing wakes the loop."""
+    rule = "C07-TIMERARM"
+    chk.rule(rule, "the absolute deadline written into the timerfd's it_value is forced positive first (zero disarms, negative is refused)")
+    n = 0
+    for fn in prog.tus["ev.c"].funcs.values():
+        sets = fn.calls("timerfd_settime")
+        if not sets or fn.name != "janet_loop1_impl":
+            continue
+        n += 1
+        chk.instance(rule)
+        chk.analysed(fn)
+        pn = fn.params[1]["n"]
+        writes = [x for x in fn.nodes if x.k == "asg" and x.op == "=" and x.kids[0].k == "mem" and x.kids[0].field in ("tv_sec", "tv_nsec")
+                  and any(is_ref(y) and y.name == pn for y in x.kids[1].walk())]
+        if not writes:
+            raise AnalysisBroken("janet_loop1_impl: it_value is not computed from the timeout parameter")
+        ok = True
+        for w in writes:
+            # simple structural form: an earlier `if (timeout < K) timeout = C` with C > 0 in the same block chain
+            clamp = [x for x in fn.nodes if x.k == "if" and x.ln <= w.ln and
+                     any(y.k == "bin" and y.op in ("<", "<=") and is_ref(strip_casts(y.kids[0])) and strip_casts(y.kids[0]).name == pn
+                         and strip_casts(y.kids[1]).v is not None for y in x.kids[0].walk()) and
+                     any(y.k == "asg" and y.op == "=" and is_ref(y.kids[0]) and y.kids[0].name == pn and (strip_casts(y.kids[1]).v or 0) > 0
+                         for y in x.kids[1].walk())]
+            good = False
+            for cl in clamp:
+                cmpn = next(y for y in cl.kids[0].walk() if y.k == "bin" and y.op in ("<", "<="))
+                k = strip_casts(cmpn.kids[1]).v - (0 if cmpn.op == "<=" else 1)     # values <= k are replaced
+                if k >= 0:
+                    good = True
+            ok = ok and good
+        if ok:
+            chk.ok(rule, "janet_loop1_impl (epoll): `%s` is clamped to a positive value before it becomes it_value" % pn)
+        else:
+            chk.violation(rule, "ev.c", fn.name, "it_value", writes[0].loc,
+                          "the timerfd is armed with the absolute deadline `%s` as it is: (ev/sleep -1e6) gives a deadline at or below zero, "
+                          "timerfd_settime then disarms the timer (all-zero value) or fails (negative), and epoll_wait(-1) never returns" % pn)
+    if n == 0:
+        chk.note("%s: no timerfd in this configuration (vacuous)" % rule)
+    chk.floor(rule, 0, n)
